@@ -811,7 +811,17 @@ func (x *FnExec) checkCallAsserts(calleeName string, args []Val, ptypes []types.
 				envC.vars[fmt.Sprintf("arg%d", i)] = TVal{args[i], ptypes[i]}
 			}
 		}
-		x.oblige(fmt.Sprintf("assert%d.at_call%d(%s)", k+1, x.callN, short), "assert", ca.Src, st.reach, envC.EvalBool(ca.E))
+		nerr := len(x.errs)
+		goal := envC.EvalBool(ca.E)
+		src := ca.Src
+		if len(x.errs) > nerr {
+			// the assertion names something that does not exist at this call (a local defined on
+			// another path, for instance after an edit that moved code): it cannot hold here
+			src += " [not evaluable at this call: " + x.errs[nerr] + "]"
+			x.errs = x.errs[:nerr]
+			goal = "false"
+		}
+		x.oblige(fmt.Sprintf("assert%d.at_call%d(%s)", k+1, x.callN, short), "assert", src, st.reach, goal)
 		x.assertHit[k] = true
 	}
 }
